@@ -96,6 +96,7 @@ type VM struct {
 	cases    []reflect.SelectCase // select cases.
 	panic    *PanicError          // panic.
 	main     bool                 // reports whether this VM is executing the main goroutine.
+	sim      simState             // simulation state; empty without the verif build tag.
 }
 
 // NewVM returns a new virtual machine.
@@ -654,6 +655,7 @@ func (vm *VM) startGoroutine() bool {
 	copy(nvm.regs.float, vm.regs.float[vm.fp[1]+Addr(off.A):vm.fp[1]+127])
 	copy(nvm.regs.string, vm.regs.string[vm.fp[2]+Addr(off.B):vm.fp[2]+127])
 	copy(nvm.regs.general, vm.regs.general[vm.fp[3]+Addr(off.C):vm.fp[3]+127])
+	simGo(vm, nvm)
 	go nvm.runFunc(fn, vars)
 	vm.pc++
 	return false
